@@ -51,6 +51,13 @@ ALL_FEATURES = [
     "generic_int",      # (comptime k: i64, a: i64) -> i64
     "fn_value",         # a global that is another function's value:  h :: f;
     "local_comptime",   # comptime blocks inside function bodies
+    # --- rung 2 of the feature ladder ---
+    "global_array",     # a comptime global that is an array built from other consts
+    "value_alias",      # w :: c;  a global that is just another global's value
+    "comptime_enum",    # a comptime global holding an enum value with payload
+    "higher_order",     # functions taking function values
+    "type_fn",          # (comptime T: type, comptime n: usize) -> type, instantiated locally
+    "loops",            # functions with mutable locals and while loops
 ]
 
 
@@ -802,6 +809,99 @@ class _Gen:
         it.uses = lambda ref, tmp: ["emit(%s(%d));" % (ref(name), a)]
         self.p.add(it)
 
+    def mk_global_array(self):
+        name = self.fresh("arr")
+        it = Item(name, "comptime_array")
+        n = self.rnd.randint(2, 4)
+        elems = [self.iexpr(it, None, depth=1) for _ in range(n)]
+        it.render = lambda ref: "%s :: comptime { i64.[%s] };" % (
+            name, ", ".join("(%s) %% 997" % e(ref) for e in elems))
+        i = self.rnd.randrange(n)
+        it.uses = lambda ref, tmp: ["emit(%s[%d] + %s[0]);" % (ref(name), i, ref(name))]
+        self.p.add(it)
+
+    def mk_value_alias(self):
+        if not self.int_consts:
+            return self.mk_const()
+        name = self.fresh("w")
+        it = Item(name, "value_alias")
+        c = self.rnd.choice(self.int_consts)
+        it.deps.add(c)
+        it.render = lambda ref: "%s :: %s;" % (name, ref(c))
+        it.uses = lambda ref, tmp: ["emit(%s);" % ref(name)]
+        self.p.add(it)
+        self.int_consts.append(name)
+
+    def mk_comptime_enum(self):
+        cands = [e for e in sorted(self.enums)
+                 if any(p is not None and p[0] == "int" for _, p, _ in self.enums[e])]
+        if not cands:
+            return self.mk_enum() if "enums" in self.f else self.mk_const()
+        e = self.rnd.choice(cands)
+        name = self.fresh("ev")
+        it = Item(name, "comptime_enum")
+        it.deps.add(e)
+        score = self.enum_score[e]
+        vn, payload, _ = self.rnd.choice([v for v in self.enums[e] if v[1] is not None and v[1][0] == "int"])
+        seed = self.iexpr(it, None, depth=1)
+        it.render = lambda ref: "%s :: comptime { %s.%s.(%s) };" % (
+            name, ref(e), vn, self.value_text(payload, ref, "(%s) %% 97" % seed(ref)))
+
+        def uses(ref, tmp):
+            return ["emit(%s(%s));" % (ref(score), ref(name))]
+
+        it.deps.add(score)
+        it.uses = uses
+        self.p.add(it)
+
+    def mk_higher_order(self):
+        if not self.int_fns:
+            return self.mk_fn()
+        name = self.fresh("ap")
+        it = Item(name, "fn_ho")
+        it.is_function = True
+        extra = self.iexpr(it, "a", depth=1)
+        it.render = lambda ref: "%s :: (fnv: (a: i64) -> i64, a: i64) -> i64 {\n    (fnv(a %% 4) + %s) %% 997\n}" % (
+            name, extra(ref))
+        fn = self.rnd.choice(self.int_fns)
+        a = self.rnd.randint(0, 6)
+        # the function passed is named at the use site (main), not in the definition
+        it.uses = lambda ref, tmp: ["emit(%s(%s, %d));" % (ref(name), ref(fn), a)]
+        self.p.add(it)
+
+    def mk_type_fn(self):
+        name = self.fresh("Vec")
+        it = Item(name, "type_fn")
+        it.is_function = True
+        it.render = lambda ref: ("%s :: (comptime T: type, comptime n: usize) -> type {\n"
+                                 "    struct { data: [n]T, len: i64 }\n}") % name
+        k = self.rnd.randint(1, 3)
+        v0 = self.rnd.randint(1, 50)
+
+        def uses(ref, tmp):
+            t = tmp("VT")
+            v = tmp("vv")
+            elems = ", ".join(str(v0 + i) for i in range(k))
+            return ["%s :: comptime %s(i64, %d);" % (t, ref(name), k),
+                    "%s : %s = %s.{ data = i64.[%s], len = %d };" % (v, t, t, elems, k),
+                    "emit(%s.data[%d] + %s.len);" % (v, k - 1, v)]
+
+        it.uses = uses
+        self.p.add(it)
+
+    def mk_loop_fn(self):
+        name = self.fresh("lp")
+        it = Item(name, "fn")
+        it.is_function = True
+        step = self.iexpr(it, "i", depth=1)
+        it.render = lambda ref: (
+            "%s :: (a: i64) -> i64 {\n    acc : i64 = 0;\n    i : i64 = 0;\n    while i < a %% 6 {\n"
+            "        acc = (acc + %s) %% 997;\n        i += 1;\n    }\n    acc\n}" % (name, step(ref)))
+        arg = self.rnd.randint(0, 9)
+        it.uses = lambda ref, tmp: ["emit(%s(%d));" % (ref(name), arg)]
+        self.p.add(it)
+        self.int_fns.append(name)
+
     def build(self):
         self.add_prelude()
         r = self.rnd
@@ -833,6 +933,18 @@ class _Gen:
             menu.append(("generic_int", self.mk_generic_int, 1))
         if "fn_value" in f:
             menu.append(("fn_value", self.mk_fn_value, 1))
+        if "global_array" in f:
+            menu.append(("global_array", self.mk_global_array, 1))
+        if "value_alias" in f:
+            menu.append(("value_alias", self.mk_value_alias, 1))
+        if "comptime_enum" in f and "enums" in f:
+            menu.append(("comptime_enum", self.mk_comptime_enum, 1))
+        if "higher_order" in f:
+            menu.append(("higher_order", self.mk_higher_order, 1))
+        if "type_fn" in f:
+            menu.append(("type_fn", self.mk_type_fn, 1))
+        if "loops" in f:
+            menu.append(("loops", self.mk_loop_fn, 2))
         weights = [w for _, _, w in menu]
         guard = 0
         while self.count_globals() < self.n and guard < 100:
